@@ -33,7 +33,7 @@ def _strategy():
                 m = {"t": b, "src": [si, ci], "kind": kind, "dp": draw(st.integers(0, 1)), "prio": draw(st.integers(0, 7)),
                      "ctx": draw(st.sampled_from(["app", "app", "app", "timer", "on_rx"])),
                      "pl": draw(N.payload_spec(N.lengths_22(), 60)),
-                     "dt_ms": draw(st.sampled_from([0, 0, 0, 2, 10, 30, 80]))}
+                     "dt_ms": draw(st.sampled_from([0, 0, 0, 0.3, 1, 2, 10, 30, 80]))}
                 if i >= 3 and m["pl"]["n"] > 2000:
                     m["pl"]["n"] = 61 + m["pl"]["n"] % 1000      # keep big bursts cheap
                 if kind == "bc2":
